@@ -20,6 +20,7 @@ _state = {"on": False, "log": [], "roots": [], "deny_outside": True, "plan": Non
 
 CRASH_EXIT = 77
 _real_open = io.open
+_real_sendfile = getattr(os, "sendfile", None)
 
 WRITE_FLAGS = os.O_WRONLY | os.O_RDWR | os.O_CREAT | os.O_TRUNC | os.O_APPEND
 
@@ -108,10 +109,22 @@ def _hook(event, args):
         elif event in ("os.rename", "os.link", "os.symlink"):
             _check(args[0])
             _check(args[1])
-            _op(event[3:], args[0], args[1])
+            kind = event[3:]
+            if kind in ("rename", "link"):
+                # the audit event fires BEFORE the system call: a rename / link across filesystems
+                # is going to fail with EXDEV and changes nothing
+                try:
+                    d0 = os.stat(os.path.dirname(os.path.abspath(os.fspath(args[0]))) or ".").st_dev
+                    d1 = os.stat(os.path.dirname(os.path.abspath(os.fspath(args[1]))) or ".").st_dev
+                    if d0 != d1:
+                        kind += "_xdev"
+                except OSError:
+                    pass
+            _op(kind, args[0], args[1])
         elif event in ("shutil.copyfile", "shutil.move", "shutil.copytree"):
+            # no operation of its own: the copy shows up as open / write (or sendfile) / close and
+            # rename events, which are logged where they happen
             _check(args[1])
-            _op("copy", args[1], args[0])       # path = destination, path2 = source
         elif event == "shutil.rmtree":
             _check(args[0])
             _op("rmtree", args[0])
@@ -205,11 +218,30 @@ def _open(file, mode="r", *a, **kw):
     return _real_open(file, mode, *a, **kw)
 
 
+def _sendfile(out_fd, in_fd, offset, count, *a, **kw):
+    """os.sendfile writes straight to the descriptor (no user-space buffer): logged as a direct
+    write ("dwrite") of the number of bytes actually transferred."""
+    st = _state
+    if st["on"] and not st["suspend"]:
+        try:
+            path = os.readlink("/proc/self/fd/%d" % out_fd)
+        except OSError:
+            path = "<fd:%d>" % out_fd
+        _op("dwrite", path, extra=-1)
+        rec = st["log"][-1]
+        sent = _real_sendfile(out_fd, in_fd, offset, count, *a, **kw)
+        rec["extra"] = sent
+        return sent
+    return _real_sendfile(out_fd, in_fd, offset, count, *a, **kw)
+
+
 def install():
     if not _state["installed"]:
         sys.addaudithook(_hook)
         builtins.open = _open
         io.open = _open
+        if _real_sendfile is not None:
+            os.sendfile = _sendfile
         _state["installed"] = True
 
 
